@@ -48,6 +48,33 @@ def encodeMap : List (Bytes × Node) → Bytes
   | (k, v) :: kvs => head 3 k.length ++ k ++ encode v ++ encodeMap kvs
 end
 
+/-- unsigned varint as go-varint reads it: at most 9 bytes, minimally encoded; (value, rest) -/
+def readUvarint : Nat → Bytes → Option (Nat × Bytes)
+  | 0, _ => none
+  | _, [] => none
+  | fuel + 1, b :: r =>
+    if b.toNat < 128 then some (b.toNat, r)
+    else match readUvarint fuel r with
+      | none => none
+      | some (v, r') => if v = 0 then none else some (b.toNat - 128 + 128 * v, r')
+
+/-- the bytes are a CID as go-cid's `Cast` accepts it: CIDv0 (a bare sha2-256 multihash) or
+    version 1 + codec + multihash (code, length, digest of exactly that length) -/
+def cidValid (c : Bytes) : Bool :=
+  if c.length = 34 ∧ c.head? = some 0x12 ∧ c[1]? = some 0x20 then true
+  else match readUvarint 9 c with
+    | some (1, r1) =>
+      match readUvarint 9 r1 with
+      | some (_, r2) =>
+        match readUvarint 9 r2 with
+        | some (_, r3) =>
+          match readUvarint 9 r3 with
+          | some (len, digest) => digest.length == len
+          | none => false
+        | none => false
+      | none => false
+    | _ => false
+
 /-- lenient head reader: (major, additional info, argument, rest); any argument width is accepted -/
 def readHead : Bytes → Option (Nat × Nat × Nat × Bytes)
   | [] => none
@@ -69,7 +96,9 @@ def decodeF : Nat → Bytes → Option (Node × Bytes)
     | none => none
     | some (major, ai, n, r) =>
       if major = 0 then some (.int n, r)
-      else if major = 1 then some (.int (-1 - (n : Int)), r)
+      else if major = 1 then
+        -- go-ipld-prime represents negative integers as int64 only
+        if n ≥ 2 ^ 63 then none else some (.int (-1 - (n : Int)), r)
       else if major = 2 then
         if r.length < n then none else some (.bytes (r.take n), r.drop n)
       else if major = 3 then
@@ -89,7 +118,7 @@ def decodeF : Nat → Bytes → Option (Node × Bytes)
           | some (2, _, len, r2) =>
             if r2.length < len then none
             else match r2.take len with
-              | 0 :: c => some (.link c, r2.drop len)
+              | 0 :: c => if cidValid c then some (.link c, r2.drop len) else none
               | _ => none
           | _ => none
       else -- major 7: simple values and floats
